@@ -1,0 +1,266 @@
+// Copyright 2020-2025 Buf Technologies, Inc.
+//
+// Licensed under the Apache License, Version 2.0 (the "License");
+// you may not use this file except in compliance with the License.
+// You may obtain a copy of the License at
+//
+//      http://www.apache.org/licenses/LICENSE-2.0
+//
+// Unless required by applicable law or agreed to in writing, software
+// distributed under the License is distributed on an "AS IS" BASIS,
+// WITHOUT WARRANTIES OR CONDITIONS OF ANY KIND, either express or implied.
+// See the License for the specific language governing permissions and
+// limitations under the License.
+
+//go:build verif
+
+package bufconfig
+
+// Contracts for the gocv verifier (see /verif/DESIGN.md). Comment-only. (author ca-r4h)
+//
+// file.go: the generic plumbing every configuration file reader / writer goes through.
+//
+// newDecodeError / newEncodeError: never nil; a *fs.PathError that names the operation, carries the file name (the
+// placeholder "config file" when there is none) and wraps the cause.
+//@ func newDecodeError(fileName, err) (r)
+//@   property C16 C15
+//@   ensures never-nil: r != nil
+//@   ensures is-path-error: typeOf(r) == typeId(*fs.PathError)
+//@   ensures op-decode: cast(*fs.PathError, r).Op == "decode"
+//@   ensures carries-file-name: cast(*fs.PathError, r).Path == filepath.Clean(normalpath.Unnormalize(ite(fileName == "", "config file", fileName)))
+//@   ensures wraps-cause: cast(*fs.PathError, r).Err == err
+//@ func newEncodeError(fileName, err) (r)
+//@   property C16 C15
+//@   ensures never-nil: r != nil
+//@   ensures is-path-error: typeOf(r) == typeId(*fs.PathError)
+//@   ensures op-encode: cast(*fs.PathError, r).Op == "encode"
+//@   ensures carries-file-name: cast(*fs.PathError, r).Path == filepath.Clean(normalpath.Unnormalize(ite(fileName == "", "config file", fileName)))
+//@   ensures wraps-cause: cast(*fs.PathError, r).Err == err
+//
+// The decoder selection: JSON is accepted only where the caller allows it; strict readers get strict decoders.
+//@ func getUnmarshalStrict(allowJSON) (r)
+//@   property C16
+//@   ensures strict-decoder: r == ite(allowJSON, encoding.UnmarshalJSONOrYAMLStrict, encoding.UnmarshalYAMLStrict)
+//@ func getUnmarshalNonStrict(allowJSON) (r)
+//@   property C16
+//@   ensures non-strict-decoder: r == ite(allowJSON, encoding.UnmarshalJSONOrYAMLNonStrict, encoding.UnmarshalYAMLNonStrict)
+//
+// validateSupportedFileVersion: accepted iff the file name is a known one and the version is listed for that name.
+//@ trusted pure interface File
+//@ trusted pure interface FileInfo
+//@ func validateSupportedFileVersion(fileName, fileVersion, fileNameToSupportedFileVersions) (err)
+//@   property C16 C15
+//@   ensures accepted-iff-listed: err == nil <==> (fileName in fileNameToSupportedFileVersions && fileVersion in fileNameToSupportedFileVersions[fileName])
+//
+// putFileForPrefix (C15): the file goes to exactly <prefix>/<fileName> of exactly the given bucket with ONE atomic put; a
+// failing Put, a failing write of the encoder (writeFileFunc is an I/O sink: it raises ghost.wfail iff it reports an error)
+// and a failing Close all reach the result. A file whose version is not supported under that name is refused before
+// anything is written.
+//@ func putFileForPrefix(ctx, bucket, prefix, f, fileName, fileNameToSupportedFileVersions, writeFileFunc) (retErr)
+//@   property C15 C16
+//@   modifies heap, ghost.fail, ghost.wfail, ghost.sinkPaths, ghost.sinkBuckets, ghost.lastPutOptions
+//@   ensures write-failure-reported: ghost.wfail && !old(ghost.wfail) ==> retErr != nil
+//@   ensures unsupported-version-refused: !(fileName in fileNameToSupportedFileVersions && f.FileVersion() in fileNameToSupportedFileVersions[fileName]) ==> retErr != nil
+//@   ensures refused-writes-nothing: !(fileName in fileNameToSupportedFileVersions && f.FileVersion() in fileNameToSupportedFileVersions[fileName]) ==> ghost.sinkPaths == old(ghost.sinkPaths) && ghost.sinkBuckets == old(ghost.sinkBuckets) && ghost.lastPutOptions == old(ghost.lastPutOptions) && ghost.wfail == old(ghost.wfail)
+//@   ensures exact-path: fileName in fileNameToSupportedFileVersions && f.FileVersion() in fileNameToSupportedFileVersions[fileName] ==> ghost.sinkPaths == add(old(ghost.sinkPaths), normalpath.Join(prefix, fileName)) && ghost.sinkBuckets == add(old(ghost.sinkBuckets), bucket)
+//@   ensures atomic-put: fileName in fileNameToSupportedFileVersions && f.FileVersion() in fileNameToSupportedFileVersions[fileName] ==> len(ghost.lastPutOptions) == 1 && ghost.lastPutOptions[0] == storage.PutWithAtomic()
+//@   canary ensures retErr == nil
+//@   canary ensures retErr != nil
+//
+// The object data attached to a file read from a bucket: exactly the name it was found under and the bytes that were read.
+//@ func newObjectData(name, data) (r)
+//@   property C16
+//@   ensures fresh-record: r != nil && r.name == name && r.data == data
+//
+// getFileForPrefix (C16: "the file is looked up under the documented names in the documented order; the first existing one
+// wins"). n := ghost.rh_reads - old(ghost.rh_reads) is the number of names that were looked at; ghost.rh_readErr[old+j] is the
+// answer of the bucket for the j-th name (k = old+j below).
+//   - leading-names-read: exactly the first n names were read, under <prefix>/<name>, on the given bucket, nothing else
+//     (in particular: once a name exists, later names - e.g. buf.mod next to buf.yaml - are not even looked at);
+//   - earlier-names-do-not-exist / first-existing-wins: every name before the last one looked at answered fs.ErrNotExist, and
+//     on success the last one looked at was read successfully (and decoded: decoded-from-that-file);
+//   - read-error-returned: a read error other than fs.ErrNotExist ends the search and is returned as is (never "not found",
+//     never the next name);
+//   - none-exists: if every name answers fs.ErrNotExist the result is a fs.ErrNotExist *fs.PathError for the FIRST name;
+//   - version-supported: a file whose version is not listed for the name it was found under is refused;
+//   - decode-error-names-path: a decode / version error is a "decode" *fs.PathError naming <prefix>/<name>.
+//@ func getFileForPrefix(ctx, bucket, prefix, fileNames, fileNameToSupportedFileVersions, readFileFunc) (res, retErr)
+//@   property C16
+//@   callback pure readFileFunc
+//@   modifies heap, ghost.fail, ghost.sinkPaths, ghost.sinkBuckets, ghost.rh_reads, ghost.rh_readErr, ghost.rh_data
+//@   ghost before "data, err := storage.ReadPath(" rh_reads := ghost.rh_reads + 1
+//@   ghost after "data, err := storage.ReadPath(" rh_readErr := put(ghost.rh_readErr, ghost.rh_reads - 1, err)
+//@   loop 0 invariant ghost.rh_reads == old(ghost.rh_reads) + $i
+//@   loop 0 invariant forall k int :: old(ghost.rh_reads) <= k && k < ghost.rh_reads ==> ghost.rh_readErr[k] != nil && errors.Is(ghost.rh_readErr[k], fs.ErrNotExist)
+//@   loop 0 invariant forall q string :: q in ghost.sinkPaths && !(q in old(ghost.sinkPaths)) <==> !(q in old(ghost.sinkPaths)) && (exists j int :: 0 <= j && j < $i && q == normalpath.Join(prefix, fileNames[j]))
+//@   loop 0 invariant forall b ref :: b in ghost.sinkBuckets && !(b in old(ghost.sinkBuckets)) ==> b == bucket
+//@   loop 0 invariant forall q string :: q in old(ghost.sinkPaths) ==> q in ghost.sinkPaths
+//@   ensures looked-at: len(fileNames) > 0 ==> 1 <= ghost.rh_reads - old(ghost.rh_reads) && ghost.rh_reads - old(ghost.rh_reads) <= len(fileNames)
+//@   ensures leading-names-read: forall q string :: q in ghost.sinkPaths && !(q in old(ghost.sinkPaths)) <==> !(q in old(ghost.sinkPaths)) && (exists j int :: 0 <= j && j < ghost.rh_reads - old(ghost.rh_reads) && q == normalpath.Join(prefix, fileNames[j]))
+//@   ensures only-this-bucket: forall b ref :: b in ghost.sinkBuckets && !(b in old(ghost.sinkBuckets)) ==> b == bucket
+//@   ensures earlier-reads-kept: forall q string :: q in old(ghost.sinkPaths) ==> q in ghost.sinkPaths
+//@   ensures earlier-names-do-not-exist: forall k int :: old(ghost.rh_reads) <= k && k < ghost.rh_reads - 1 ==> ghost.rh_readErr[k] != nil && errors.Is(ghost.rh_readErr[k], fs.ErrNotExist)
+//@   ensures first-existing-wins: retErr == nil ==> ghost.rh_reads > old(ghost.rh_reads) && ghost.rh_readErr[ghost.rh_reads - 1] == nil
+//@   ensures read-error-returned: ghost.rh_reads > old(ghost.rh_reads) && ghost.rh_readErr[ghost.rh_reads - 1] != nil && !errors.Is(ghost.rh_readErr[ghost.rh_reads - 1], fs.ErrNotExist) ==> retErr == ghost.rh_readErr[ghost.rh_reads - 1]
+//@   ensures none-exists: ghost.rh_reads > old(ghost.rh_reads) && ghost.rh_readErr[ghost.rh_reads - 1] != nil && errors.Is(ghost.rh_readErr[ghost.rh_reads - 1], fs.ErrNotExist) ==> ghost.rh_reads - old(ghost.rh_reads) == len(fileNames) && retErr != nil && typeOf(retErr) == typeId(*fs.PathError) && cast(*fs.PathError, retErr).Err == fs.ErrNotExist && cast(*fs.PathError, retErr).Path == normalpath.Join(prefix, fileNames[0])
+//@   ensures version-supported: retErr == nil ==> fileNames[ghost.rh_reads - old(ghost.rh_reads) - 1] in fileNameToSupportedFileVersions && res.FileVersion() in fileNameToSupportedFileVersions[fileNames[ghost.rh_reads - old(ghost.rh_reads) - 1]]
+//@   ensures decode-error-names-path: retErr != nil && ghost.rh_reads > old(ghost.rh_reads) && ghost.rh_readErr[ghost.rh_reads - 1] == nil ==> typeOf(retErr) == typeId(*fs.PathError) && cast(*fs.PathError, retErr).Op == "decode" && (normalpath.Join(prefix, fileNames[ghost.rh_reads - old(ghost.rh_reads) - 1]) != "" ==> cast(*fs.PathError, retErr).Path == filepath.Clean(normalpath.Unnormalize(normalpath.Join(prefix, fileNames[ghost.rh_reads - old(ghost.rh_reads) - 1]))))
+//@   ghost after "data, err := storage.ReadPath(" rh_data := data
+//@   ensures decoded-from-that-file: retErr == nil ==> (exists od *objectData :: od.name == fileNames[ghost.rh_reads - old(ghost.rh_reads) - 1] && od.data == ghost.rh_data && res == first(readFileFunc(ghost.rh_data, od, false)) && second(readFileFunc(ghost.rh_data, od, false)) == nil)
+//@   canary ensures retErr != nil
+//
+// getFileVersionForPrefix: the same search (same names, same order, first existing wins, a read error other than
+// fs.ErrNotExist is returned as is, nothing exists: fs.ErrNotExist for the FIRST name), for the version only. The version
+// returned is one that is supported for the name the file was found under; every error comes with version 0.
+//@ func getFileVersionForPrefix(ctx, bucket, prefix, fileNames, fileNameToSupportedFileVersions, fileVersionRequired, suggestedFileVersion, defaultFileVersion) (res, retErr)
+//@   property C16
+//@   modifies heap, ghost.fail, ghost.sinkPaths, ghost.sinkBuckets, ghost.rh_reads, ghost.rh_readErr
+//@   ghost before "data, err := storage.ReadPath(" rh_reads := ghost.rh_reads + 1
+//@   ghost after "data, err := storage.ReadPath(" rh_readErr := put(ghost.rh_readErr, ghost.rh_reads - 1, err)
+//@   loop 0 invariant ghost.rh_reads == old(ghost.rh_reads) + $i
+//@   loop 0 invariant forall k int :: old(ghost.rh_reads) <= k && k < ghost.rh_reads ==> ghost.rh_readErr[k] != nil && errors.Is(ghost.rh_readErr[k], fs.ErrNotExist)
+//@   loop 0 invariant forall q string :: q in ghost.sinkPaths && !(q in old(ghost.sinkPaths)) <==> !(q in old(ghost.sinkPaths)) && (exists j int :: 0 <= j && j < $i && q == normalpath.Join(prefix, fileNames[j]))
+//@   loop 0 invariant forall b ref :: b in ghost.sinkBuckets && !(b in old(ghost.sinkBuckets)) ==> b == bucket
+//@   loop 0 invariant forall q string :: q in old(ghost.sinkPaths) ==> q in ghost.sinkPaths
+//@   ensures looked-at: len(fileNames) > 0 ==> 1 <= ghost.rh_reads - old(ghost.rh_reads) && ghost.rh_reads - old(ghost.rh_reads) <= len(fileNames)
+//@   ensures leading-names-read: forall q string :: q in ghost.sinkPaths && !(q in old(ghost.sinkPaths)) <==> !(q in old(ghost.sinkPaths)) && (exists j int :: 0 <= j && j < ghost.rh_reads - old(ghost.rh_reads) && q == normalpath.Join(prefix, fileNames[j]))
+//@   ensures only-this-bucket: forall b ref :: b in ghost.sinkBuckets && !(b in old(ghost.sinkBuckets)) ==> b == bucket
+//@   ensures earlier-reads-kept: forall q string :: q in old(ghost.sinkPaths) ==> q in ghost.sinkPaths
+//@   ensures earlier-names-do-not-exist: forall k int :: old(ghost.rh_reads) <= k && k < ghost.rh_reads - 1 ==> ghost.rh_readErr[k] != nil && errors.Is(ghost.rh_readErr[k], fs.ErrNotExist)
+//@   ensures first-existing-wins: retErr == nil ==> ghost.rh_reads > old(ghost.rh_reads) && ghost.rh_readErr[ghost.rh_reads - 1] == nil
+//@   ensures read-error-returned: ghost.rh_reads > old(ghost.rh_reads) && ghost.rh_readErr[ghost.rh_reads - 1] != nil && !errors.Is(ghost.rh_readErr[ghost.rh_reads - 1], fs.ErrNotExist) ==> retErr == ghost.rh_readErr[ghost.rh_reads - 1]
+//@   ensures none-exists: ghost.rh_reads > old(ghost.rh_reads) && ghost.rh_readErr[ghost.rh_reads - 1] != nil && errors.Is(ghost.rh_readErr[ghost.rh_reads - 1], fs.ErrNotExist) ==> ghost.rh_reads - old(ghost.rh_reads) == len(fileNames) && retErr != nil && typeOf(retErr) == typeId(*fs.PathError) && cast(*fs.PathError, retErr).Err == fs.ErrNotExist && cast(*fs.PathError, retErr).Path == normalpath.Join(prefix, fileNames[0])
+//@   ensures version-supported: retErr == nil ==> fileNames[ghost.rh_reads - old(ghost.rh_reads) - 1] in fileNameToSupportedFileVersions && res in fileNameToSupportedFileVersions[fileNames[ghost.rh_reads - old(ghost.rh_reads) - 1]]
+//@   ensures error-has-no-version: retErr != nil ==> res == 0
+//@   ensures decode-error-names-path: retErr != nil && ghost.rh_reads > old(ghost.rh_reads) && ghost.rh_readErr[ghost.rh_reads - 1] == nil ==> typeOf(retErr) == typeId(*fs.PathError) && cast(*fs.PathError, retErr).Op == "decode" && (normalpath.Join(prefix, fileNames[ghost.rh_reads - old(ghost.rh_reads) - 1]) != "" ==> cast(*fs.PathError, retErr).Path == filepath.Clean(normalpath.Unnormalize(normalpath.Join(prefix, fileNames[ghost.rh_reads - old(ghost.rh_reads) - 1]))))
+//@   canary ensures retErr != nil
+//
+// readFile (a file given as a reader, e.g. stdin or --config data; JSON allowed): a failing read is returned; a decoder
+// error comes back as a "decode" *fs.PathError carrying the file name; the result is what the decoder made of the bytes.
+//@ func readFile(reader, fileName, readFileFunc) (res, retErr)
+//@   property C16 C15
+//@   callback pure readFileFunc
+//@   modifies heap, ghost.fail
+//@   ensures read-failure-reported: ghost.fail && !old(ghost.fail) ==> retErr != nil
+//@   ensures decode-error-carries-name: retErr != nil && !ghost.fail ==> typeOf(retErr) == typeId(*fs.PathError) && cast(*fs.PathError, retErr).Op == "decode" && cast(*fs.PathError, retErr).Path == filepath.Clean(normalpath.Unnormalize(ite(fileName == "", "config file", fileName)))
+//@   ensures decoded-json-allowed-no-object-data: retErr == nil ==> (exists d []byte :: res == first(readFileFunc(d, nil, true)) && second(readFileFunc(d, nil, true)) == nil)
+//@   canary ensures retErr != nil
+//
+// writeFile (C15): an error of the encoder / of the writer behind it (writeFileFunc is an I/O sink) is always returned,
+// wrapped in a *fs.PathError that carries the name of the file the configuration was read from ("config file" if none).
+// NOTE: the operation recorded in that error is "decode" although this is the ENCODE direction (newDecodeError is called
+// where newEncodeError was meant); message text only, reported as an observation, not claimed by any clause.
+//@ func writeFile(writer, f, writeFileFunc) (retErr)
+//@   property C15 C16
+//@   modifies heap, ghost.fail, ghost.wfail
+//@   ensures write-failure-reported: ghost.wfail && !old(ghost.wfail) ==> retErr != nil
+//@   ensures no-failure-no-error: !ghost.wfail ==> retErr == nil
+//@   ensures error-carries-name: retErr != nil ==> typeOf(retErr) == typeId(*fs.PathError) && cast(*fs.PathError, retErr).Path == filepath.Clean(normalpath.Unnormalize(ite(f.ObjectData() == nil || f.ObjectData().Name() == "", "config file", f.ObjectData().Name())))
+//
+// ---- the exported readers / writers: WHICH names, in WHICH order, and under WHICH name a file is written (C16), and that a
+// failing write is reported (C15). The name lists are package variables that are never assigned; their values are extracted
+// from the initialisers on every run (tables) and appear as hypotheses rh_...Names(...) of the clauses that need them.
+//@ table rh_bufYAMLNames {C16} of bufYAMLFileNames
+//@   ensures buf-yaml-before-buf-mod: rh_bufYAMLNames(bufYAMLFileNames)
+//@ table rh_bufWorkYAMLNames {C16} of bufWorkYAMLFileNames
+//@   ensures buf-work-yaml-before-buf-work: rh_bufWorkYAMLNames(bufWorkYAMLFileNames)
+//@ table rh_bufLockNames {C16} of bufLockFileNames
+//@   ensures buf-lock-only: rh_bufLockNames(bufLockFileNames)
+//@ table rh_bufGenYAMLNames {C16} of bufGenYAMLFileNames
+//@   ensures buf-gen-yaml-only: rh_bufGenYAMLNames(bufGenYAMLFileNames)
+//
+// Version probes: only the documented names are read, on the given bucket; the default name is asked first and the old name
+// only after the default one answered fs.ErrNotExist; if neither exists the error names the DEFAULT name.
+//@ func GetBufYAMLFileVersionForPrefix(ctx, bucket, prefix) (r, err)
+//@   property C16
+//@   modifies heap, ghost.fail, ghost.sinkPaths, ghost.sinkBuckets, ghost.rh_reads, ghost.rh_readErr
+//@   ensures only-documented-names: rh_bufYAMLNames(bufYAMLFileNames) ==> (forall q string :: q in ghost.sinkPaths && !(q in old(ghost.sinkPaths)) ==> q == normalpath.Join(prefix, "buf.yaml") || q == normalpath.Join(prefix, "buf.mod"))
+//@   ensures only-this-bucket: forall b ref :: b in ghost.sinkBuckets && !(b in old(ghost.sinkBuckets)) ==> b == bucket
+//@   ensures error-has-no-version: err != nil ==> r == 0
+//@   ensures buf-yaml-asked-first: rh_bufYAMLNames(bufYAMLFileNames) && normalpath.Join(prefix, "buf.mod") != normalpath.Join(prefix, "buf.yaml") && normalpath.Join(prefix, "buf.mod") in ghost.sinkPaths && !(normalpath.Join(prefix, "buf.mod") in old(ghost.sinkPaths)) ==> normalpath.Join(prefix, "buf.yaml") in ghost.sinkPaths && ghost.rh_readErr[old(ghost.rh_reads)] != nil && errors.Is(ghost.rh_readErr[old(ghost.rh_reads)], fs.ErrNotExist)
+//@   ensures nothing-found-names-buf-yaml: rh_bufYAMLNames(bufYAMLFileNames) && err != nil && ghost.rh_reads == old(ghost.rh_reads) + 2 && ghost.rh_readErr[old(ghost.rh_reads) + 1] != nil && errors.Is(ghost.rh_readErr[old(ghost.rh_reads) + 1], fs.ErrNotExist) ==> typeOf(err) == typeId(*fs.PathError) && cast(*fs.PathError, err).Err == fs.ErrNotExist && cast(*fs.PathError, err).Path == normalpath.Join(prefix, "buf.yaml")
+//@ func GetBufWorkYAMLFileVersionForPrefix(ctx, bucket, prefix) (r, err)
+//@   property C16
+//@   modifies heap, ghost.fail, ghost.sinkPaths, ghost.sinkBuckets, ghost.rh_reads, ghost.rh_readErr
+//@   ensures only-documented-names: rh_bufWorkYAMLNames(bufWorkYAMLFileNames) ==> (forall q string :: q in ghost.sinkPaths && !(q in old(ghost.sinkPaths)) ==> q == normalpath.Join(prefix, "buf.work.yaml") || q == normalpath.Join(prefix, "buf.work"))
+//@   ensures only-this-bucket: forall b ref :: b in ghost.sinkBuckets && !(b in old(ghost.sinkBuckets)) ==> b == bucket
+//@   ensures error-has-no-version: err != nil ==> r == 0
+//@   ensures buf-work-yaml-asked-first: rh_bufWorkYAMLNames(bufWorkYAMLFileNames) && normalpath.Join(prefix, "buf.work") != normalpath.Join(prefix, "buf.work.yaml") && normalpath.Join(prefix, "buf.work") in ghost.sinkPaths && !(normalpath.Join(prefix, "buf.work") in old(ghost.sinkPaths)) ==> normalpath.Join(prefix, "buf.work.yaml") in ghost.sinkPaths && ghost.rh_readErr[old(ghost.rh_reads)] != nil && errors.Is(ghost.rh_readErr[old(ghost.rh_reads)], fs.ErrNotExist)
+//@   ensures nothing-found-names-buf-work-yaml: rh_bufWorkYAMLNames(bufWorkYAMLFileNames) && err != nil && ghost.rh_reads == old(ghost.rh_reads) + 2 && ghost.rh_readErr[old(ghost.rh_reads) + 1] != nil && errors.Is(ghost.rh_readErr[old(ghost.rh_reads) + 1], fs.ErrNotExist) ==> typeOf(err) == typeId(*fs.PathError) && cast(*fs.PathError, err).Err == fs.ErrNotExist && cast(*fs.PathError, err).Path == normalpath.Join(prefix, "buf.work.yaml")
+//@ func GetBufLockFileVersionForPrefix(ctx, bucket, prefix) (r, err)
+//@   property C16
+//@   modifies heap, ghost.fail, ghost.sinkPaths, ghost.sinkBuckets, ghost.rh_reads, ghost.rh_readErr
+//@   ensures only-documented-names: rh_bufLockNames(bufLockFileNames) ==> (forall q string :: q in ghost.sinkPaths && !(q in old(ghost.sinkPaths)) ==> q == normalpath.Join(prefix, "buf.lock"))
+//@   ensures only-this-bucket: forall b ref :: b in ghost.sinkBuckets && !(b in old(ghost.sinkBuckets)) ==> b == bucket
+//@   ensures error-has-no-version: err != nil ==> r == 0
+//@ func GetBufGenYAMLFileVersionForPrefix(ctx, bucket, prefix) (r, err)
+//@   property C16
+//@   modifies heap, ghost.fail, ghost.sinkPaths, ghost.sinkBuckets, ghost.rh_reads, ghost.rh_readErr
+//@   ensures only-documented-names: rh_bufGenYAMLNames(bufGenYAMLFileNames) ==> (forall q string :: q in ghost.sinkPaths && !(q in old(ghost.sinkPaths)) ==> q == normalpath.Join(prefix, "buf.gen.yaml"))
+//@   ensures only-this-bucket: forall b ref :: b in ghost.sinkBuckets && !(b in old(ghost.sinkBuckets)) ==> b == bucket
+//@   ensures error-has-no-version: err != nil ==> r == 0
+//
+// Writers into a bucket: always under the FIRST (default) name - never buf.mod / buf.work -, with one atomic put, on the given
+// bucket; every failing Put / Write / Close is reported; a reported success means the put of that path happened.
+//@ func PutBufYAMLFileForPrefix(ctx, bucket, prefix, bufYAMLFile) (err)
+//@   property C15 C16
+//@   modifies heap, ghost.fail, ghost.wfail, ghost.sinkPaths, ghost.sinkBuckets, ghost.lastPutOptions, ghost.buf
+//@   ensures write-failure-reported {C15}: ghost.wfail && !old(ghost.wfail) ==> err != nil
+//@   ensures written-under-the-default-name: ghost.sinkPaths == old(ghost.sinkPaths) || ghost.sinkPaths == add(old(ghost.sinkPaths), normalpath.Join(prefix, "buf.yaml"))
+//@   ensures only-this-bucket: forall b ref :: b in ghost.sinkBuckets && !(b in old(ghost.sinkBuckets)) ==> b == bucket
+//@   ensures atomic-put {C15}: ghost.sinkPaths != old(ghost.sinkPaths) ==> len(ghost.lastPutOptions) == 1 && ghost.lastPutOptions[0] == storage.PutWithAtomic()
+//@   ensures success-means-written: err == nil ==> normalpath.Join(prefix, "buf.yaml") in ghost.sinkPaths && bucket in ghost.sinkBuckets
+//@ func PutBufWorkYAMLFileForPrefix(ctx, bucket, prefix, bufYAMLFile) (err)
+//@   property C15 C16
+//@   modifies heap, ghost.fail, ghost.wfail, ghost.sinkPaths, ghost.sinkBuckets, ghost.lastPutOptions, ghost.buf
+//@   ensures write-failure-reported {C15}: ghost.wfail && !old(ghost.wfail) ==> err != nil
+//@   ensures written-under-the-default-name: ghost.sinkPaths == old(ghost.sinkPaths) || ghost.sinkPaths == add(old(ghost.sinkPaths), normalpath.Join(prefix, "buf.work.yaml"))
+//@   ensures only-this-bucket: forall b ref :: b in ghost.sinkBuckets && !(b in old(ghost.sinkBuckets)) ==> b == bucket
+//@   ensures atomic-put {C15}: ghost.sinkPaths != old(ghost.sinkPaths) ==> len(ghost.lastPutOptions) == 1 && ghost.lastPutOptions[0] == storage.PutWithAtomic()
+//@   ensures success-means-written: err == nil ==> normalpath.Join(prefix, "buf.work.yaml") in ghost.sinkPaths && bucket in ghost.sinkBuckets
+//@ func PutBufLockFileForPrefix(ctx, bucket, prefix, bufLockFile) (err)
+//@   property C15 C16
+//@   modifies heap, ghost.fail, ghost.wfail, ghost.sinkPaths, ghost.sinkBuckets, ghost.lastPutOptions, ghost.buf
+//@   ensures write-failure-reported {C15}: ghost.wfail && !old(ghost.wfail) ==> err != nil
+//@   ensures written-under-the-default-name: ghost.sinkPaths == old(ghost.sinkPaths) || ghost.sinkPaths == add(old(ghost.sinkPaths), normalpath.Join(prefix, "buf.lock"))
+//@   ensures only-this-bucket: forall b ref :: b in ghost.sinkBuckets && !(b in old(ghost.sinkBuckets)) ==> b == bucket
+//@   ensures atomic-put {C15}: ghost.sinkPaths != old(ghost.sinkPaths) ==> len(ghost.lastPutOptions) == 1 && ghost.lastPutOptions[0] == storage.PutWithAtomic()
+//@   ensures success-means-written: err == nil ==> normalpath.Join(prefix, "buf.lock") in ghost.sinkPaths && bucket in ghost.sinkBuckets
+//@ func PutBufGenYAMLFileForPrefix(ctx, bucket, prefix, bufYAMLFile) (err)
+//@   property C15 C16
+//@   modifies heap, ghost.fail, ghost.wfail, ghost.sinkPaths, ghost.sinkBuckets, ghost.lastPutOptions, ghost.buf
+//@   ensures write-failure-reported {C15}: ghost.wfail && !old(ghost.wfail) ==> err != nil
+//@   ensures written-under-the-default-name: ghost.sinkPaths == old(ghost.sinkPaths) || ghost.sinkPaths == add(old(ghost.sinkPaths), normalpath.Join(prefix, "buf.gen.yaml"))
+//@   ensures only-this-bucket: forall b ref :: b in ghost.sinkBuckets && !(b in old(ghost.sinkBuckets)) ==> b == bucket
+//@   ensures atomic-put {C15}: ghost.sinkPaths != old(ghost.sinkPaths) ==> len(ghost.lastPutOptions) == 1 && ghost.lastPutOptions[0] == storage.PutWithAtomic()
+//@   ensures success-means-written: err == nil ==> normalpath.Join(prefix, "buf.gen.yaml") in ghost.sinkPaths && bucket in ghost.sinkBuckets
+//
+// Writers to an io.Writer: a failing write of the encoder is always reported, as a *fs.PathError (see writeFile).
+//@ func WriteBufYAMLFile(writer, bufYAMLFile) (err)
+//@   property C15 C16
+//@   modifies heap, ghost.fail, ghost.wfail
+//@   ensures write-failure-reported {C15}: ghost.wfail && !old(ghost.wfail) ==> err != nil
+//@   ensures error-names-the-file: err != nil ==> typeOf(err) == typeId(*fs.PathError)
+//@ func WriteBufWorkYAMLFile(writer, bufWorkYAMLFile) (err)
+//@   property C15 C16
+//@   modifies heap, ghost.fail, ghost.wfail, ghost.z_workDirsOut
+//@   ensures write-failure-reported {C15}: ghost.wfail && !old(ghost.wfail) ==> err != nil
+//@   ensures error-names-the-file: err != nil ==> typeOf(err) == typeId(*fs.PathError)
+//@ func WriteBufLockFile(writer, bufLockFile) (err)
+//@   property C15 C16
+//@   modifies heap, ghost.fail, ghost.wfail
+//@   ensures write-failure-reported {C15}: ghost.wfail && !old(ghost.wfail) ==> err != nil
+//@   ensures error-names-the-file: err != nil ==> typeOf(err) == typeId(*fs.PathError)
+//@ func WriteBufGenYAMLFile(writer, bufGenYAMLFile) (err)
+//@   property C15 C16
+//@   modifies heap, ghost.fail, ghost.wfail
+//@   ensures write-failure-reported {C15}: ghost.wfail && !old(ghost.wfail) ==> err != nil
+//@   ensures error-names-the-file: err != nil ==> typeOf(err) == typeId(*fs.PathError)
+//
+// buf.gen.yaml under a prefix: only <prefix>/buf.gen.yaml of the given bucket is read; not found is fs.ErrNotExist for that name.
+//@ func GetBufGenYAMLFileForPrefix(ctx, bucket, prefix) (r, err)
+//@   property C16
+//@   modifies heap, ghost.fail, ghost.wfail, ghost.sinkPaths, ghost.sinkBuckets, ghost.rh_reads, ghost.rh_readErr, ghost.rh_data
+//@   ensures only-documented-name: rh_bufGenYAMLNames(bufGenYAMLFileNames) ==> (forall q string :: q in ghost.sinkPaths && !(q in old(ghost.sinkPaths)) ==> q == normalpath.Join(prefix, "buf.gen.yaml"))
+//@   ensures only-this-bucket: forall b ref :: b in ghost.sinkBuckets && !(b in old(ghost.sinkBuckets)) ==> b == bucket
+//@   ensures missing-is-not-exist: rh_bufGenYAMLNames(bufGenYAMLFileNames) && ghost.rh_readErr[ghost.rh_reads - 1] != nil && errors.Is(ghost.rh_readErr[ghost.rh_reads - 1], fs.ErrNotExist) ==> err != nil && typeOf(err) == typeId(*fs.PathError) && cast(*fs.PathError, err).Err == fs.ErrNotExist && cast(*fs.PathError, err).Path == normalpath.Join(prefix, "buf.gen.yaml")
